@@ -7,7 +7,6 @@ ROOT = os.path.join(os.path.dirname(os.path.abspath(__file__)), '..')
 
 NA = {
  "C09": "Pebble WAL/batch atomicity under crash; no WuKongIM integer/byte function decides any clause; a crash model of Pebble is outside SMT reach",
- "C11": "streaming export/import through Pebble iterators and io.Reader chains; whole-stream checksums over unbounded input",
  "C12": "etcd-raft + goroutine pipelines + network schedules + Pebble; nothing encodable decides a clause",
  "C14": "differential behaviour of a Pebble-backed store against etcd MemoryStorage over histories and crash points",
  "C28": "ordering across goroutines, mailboxes and an ants pool; the SSA executor has no goroutine scheduler",
@@ -130,6 +129,10 @@ claim("C39", "other",
 claim("C02", "other",
       "Slice: step obligations on the real MemoryChannelStore from an arbitrary store satisfying the proved build invariant - exact AppendLeader (any base, predecessor, command id, Committed), malformed appends, ReplaceRecoverySuffix (Expected perturbed in 8 fields, any KeepThrough / Committed), checkpoint: the store equals the abstract log after the step, HW <= LEO and both monotone, identities chain from zero, Durable / AlreadyDurable / Conflict exactly as specified, refused steps change nothing; the agreement lemma (equal digest at i => equal identity and content at every j <= i) over two independently built logs; the replication store adapter's result normalisation and probe-chain validation against reference predicates; follower repair never announces a committed watermark above the leader's (real repairFromFrontier + ExchangeServer over the memory store).",
       "Logs of up to 2 (thorough 3) proposals of 1-2 records; one leader driving two different stores in one run, the goroutine scheduling of runtime.go, Pebble and crashes between recovery pages are not encoded - agreement across replicas is the lemma plus a paper induction. " + TB)
+
+claim("C11", "other",
+      "Slice: the real exporters, stream writers and importers of pkg/db/meta and pkg/db/message on the in-memory engine, stores compared byte for byte. Metadata: export of hash-slot sets (bulk and streaming writer produce identical bytes) restored by four importers into a fresh store gives exactly the rows of the exported hash slots and a byte-identical re-export; a restore over stale / partially written targets, retried, converges and never touches rows outside the imported hash slots; malformed or mismatched payloads with a valid checksum, truncation at every point, appended bytes and a single changed byte (exact CRC-32 via its GF(2)-affine form) are refused with the target untouched. Messages: a backup cut at the checkpointed HW restores every committed row with its id / idempotency / sender indexes, checkpoint and retention state, nothing above HW, re-import is a no-op and the re-export identical; corruption and malformed streams are refused. Findings C11-F1 and C11-F2 (both repaired).",
+      "Pebble snapshots / iterators are replaced by the in-memory engine (no durability; crash-retry is modelled by the partial states a crashed import can leave); the io.Pipe + goroutine wrappers, zstd / archive / manifest layers, pkg/db/transfer and node-restore orchestration are not run; small stores with 6-bit symbolic fields; all-position byte corruption only for a 58-byte export; for the bulk message importer only checksum-detected damage is claimed. " + TB)
 
 def main():
     props = [json.loads(l) for l in open(os.path.join(ROOT, 'properties.jsonl'))]
